@@ -158,3 +158,5 @@ Theorem C14_source_idevice_hess : forall n a b c bnd (s : list R), IDevice_hess 
 Proof. exact gen_idevice_hess. Qed.
 Theorem C14_source_idevice2_hess : forall n pl ph bnd (s : list R), IDevice2_hess (A:=R) n pl ph bnd s = idev2_hess pl ph bnd s.
 Proof. exact gen_idevice2_hess. Qed.
+Theorem C14_source_gdevice_hess : forall n g (s : list R), GDevice_hess (A:=R) n g s = gdev_hess g s.
+Proof. exact gen_gdevice_hess. Qed.
